@@ -16,6 +16,9 @@ pub enum Case {
     Permuted { n: usize, perm: Vec<usize> },
     /// tall m x n least-squares system
     Tall { m: usize, n: usize },
+    /// graded n x n system: `d` on the diagonal, -1 everywhere below it, +1 in the last column (well conditioned,
+    /// but elimination without row exchanges doubles the last column at every step and loses the small diagonal)
+    Graded { n: usize, dexp: i32 },
 }
 
 const GEN: [f64; 24] = [
@@ -496,6 +499,27 @@ pub fn check(case: &Case, idx: u64, acc: &mut Acc) {
             acc.nontrivial();
             acc.bump("systems with a tiny non-zero entry");
             run_system(&sys, false, false, case, &format!("tiny{}", n), idx, acc);
+            // the same SQUARE system with least squares allowed: the answer still solves it
+            {
+                acc.eval();
+                let (m_, n_) = (sys.a.len(), sys.a[0].len());
+                let af = Array2::from_shape_fn((m_, n_), |(i, j)| sys.a[i][j]);
+                let bf = Array1::from_vec(sys.b.clone());
+                let ad = Array2::from_shape_fn((m_, n_), |(i, j)| Dual::try_new(sys.a[i][j], vec![format!("r{}", i)], vec![gcoef(i, j)]).unwrap());
+                let bd = Array1::from_shape_fn(m_, |i| Dual::new(sys.b[i], vec![format!("b{}", i)]));
+                match guarded(|| (dsolve(&af.view(), &bf.view(), true), dsolve(&ad.view(), &bd.view(), true))) {
+                    Err(msg) => acc.violate(&format!("tiny{}/square-with-lsq/panic", n), idx, serde_json::to_value(case).unwrap(), json!("a solution"), json!(msg)),
+                    Ok((xf, xd)) => {
+                        if let Some(inv) = inverse(&sys.a) {
+                            let x0: Vec<f64> = (0..n_).map(|i| (0..n_).map(|j| inv[i][j] * sys.b[j]).sum()).collect();
+                            let mx = x0.iter().fold(0.0_f64, |m, v| m.max(v.abs()));
+                            if (0..n_).any(|i| !close_scaled(xf[i], x0[i], 1e-6, mx) || !close_scaled(xd[i].real(), x0[i], 1e-6, mx)) {
+                                acc.violate(&format!("tiny{}/square-with-lsq", n), idx, serde_json::to_value(case).unwrap(), json!(x0), json!({"f64": xf.to_vec(), "Dual": xd.iter().map(|d| d.real()).collect::<Vec<_>>()}));
+                            }
+                        }
+                    }
+                }
+            }
             // other magnitudes: (factor on the one entry, factor on the whole system incl. right-hand side).
             // The whole-system factor does not change the solution or the conditioning, only the absolute size
             // of every number met during elimination.
@@ -582,6 +606,37 @@ pub fn check(case: &Case, idx: u64, acc: &mut Acc) {
                 acc.sample(|| serde_json::to_value(case).unwrap());
             }
         }
+        Case::Graded { n, dexp } => {
+            let n = *n;
+            let d = 2.0_f64.powi(*dexp);
+            let a: Vec<Vec<f64>> = (0..n).map(|i| (0..n).map(|j| if j == n - 1 { 1.0 } else if i == j { d } else if i > j { -1.0 } else { 0.0 }).collect()).collect();
+            let b: Vec<f64> = (0..n).map(|i| GEN[(i * 5 + 2) % 24]).collect();
+            match cond(&a) {
+                Some(c) if c < 1e4 => {}
+                _ => {
+                    acc.skip();
+                    return;
+                }
+            }
+            acc.nontrivial();
+            let sys = Sys { a: a.clone(), b: b.clone() };
+            let x = run_system(&sys, false, false, case, &format!("graded{}", n), idx, acc);
+            // against the reference solution, and with the equations listed in reverse order
+            if let (Some(x), Some(inv)) = (x, inverse(&a)) {
+                let x0: Vec<f64> = (0..n).map(|i| (0..n).map(|j| inv[i][j] * b[j]).sum()).collect();
+                let m = x0.iter().fold(0.0_f64, |m, v| m.max(v.abs()));
+                if (0..n).any(|i| !close_scaled(x[i], x0[i], 1e-9, m)) {
+                    acc.violate(&format!("graded{}/differs-from-reference", n), idx, serde_json::to_value(case).unwrap(), json!(x0), json!(x));
+                }
+                let rev = Sys { a: a.iter().rev().cloned().collect(), b: b.iter().rev().cloned().collect() };
+                if let Some(xr) = run_system(&rev, false, false, case, &format!("graded{}/reversed", n), idx, acc) {
+                    if (0..n).any(|i| !close_scaled(xr[i], x0[i], 1e-9, m)) {
+                        acc.violate(&format!("graded{}/row-order-changes-answer", n), idx, serde_json::to_value(case).unwrap(), json!(x0), json!(xr));
+                    }
+                }
+            }
+            acc.sample(|| serde_json::to_value(case).unwrap());
+        }
         Case::Tall { m, n } => {
             let a: Vec<Vec<f64>> = (0..*m).map(|i| (0..*n).map(|j| GEN[(i * 5 + j * 11 + 1) % 24] * 0.4 + if i % n == j { 3.0 } else { 0.0 }).collect()).collect();
             let b: Vec<f64> = (0..*m).map(|i| GEN[(i * 7 + 4) % 24]).collect();
@@ -662,6 +717,11 @@ pub fn cases(tier: Tier) -> Vec<Case> {
             out.push(Case::Permuted { n, perm: g });
         }
     }
+    for n in 3..=12usize {
+        for dexp in [-9i32, -5, -3, -1] {
+            out.push(Case::Graded { n, dexp });
+        }
+    }
     for n in 1..=6usize {
         for m in (n + 1)..=12usize {
             out.push(Case::Tall { m, n });
@@ -685,7 +745,7 @@ pub fn run(ctx: &Ctx, replay_file: Option<String>) -> ! {
         "square systems: EVERY zero/non-zero pattern of 1x1, 2x2, 3x3 matrices (and of 4x4: all 65 536 in the thorough \
          tier, every 7th in quick) filled from a fixed generic value table, kept when the reference condition number is \
          < 1e4; diagonally dominant generic matrices of size 4..5 (6) under EVERY row permutation and of size 6/7..8 \
-         under a generator set of permutations, and of size 9, 10, 12, 16, 17, 24, 33 under four permutations; tall m x n systems for all n <= 6 < m <= 12 with least squares. Each \
+         under a generator set of permutations, and of size 9, 10, 12, 16, 17, 24, 33 under four permutations; tall m x n systems for all n <= 6 < m <= 12 with least squares; graded systems (small diagonal, -1 below, +1 in the last column) of size 3..12, also with the equations reversed; the tiny-entry square systems again with least squares allowed. Each \
          system is solved with dsolve on f64, Dual, Dual2 and Number (float and dual entries mixed) and with fdsolve \
          (float matrix) for right-hand sides of each type, under four taggings (every entry its own variable incl. \
          structurally zero entries, one shared variable, one variable per row, no variables on A; under the first also with a second-order part on every entry and structurally zero entries turned into stationary zeros); the float and \
